@@ -165,6 +165,11 @@ impl<C: Suite> Interp<C> {
                 self.put(&st["out"], Obj::R2p(dkg::round2::Package::new(SigningShare::new(s))))?;
                 Ok(json!({"ok": true}))
             }
+            "zero_r2" => {
+                self.r2p(&st["src"])?;
+                self.put(&st["out"], Obj::R2p(dkg::round2::Package::new(SigningShare::new(F::<C>::zero()))))?;
+                Ok(json!({"ok": true}))
+            }
             "dkg3" => {
                 let sec = self.r2s(&st["sec"])?;
                 let r1 = self.slots(st.get("r1"), |s, h| s.r1p(h))?;
@@ -229,13 +234,18 @@ impl<C: Suite> Interp<C> {
                 match repairable::repair_share_part1(&helpers, &kp, rng, target) {
                     Ok(m) => {
                         let mut out = vec![];
+                        let mut ids = vec![];
+                        let mut sum = F::<C>::zero();
                         for (i, d) in m.iter() {
                             let v = Self::scalar_of_bytes(&d.serialize())?;
+                            sum = sum + v;
+                            ids.push(self.idj(i));
                             out.push(json!([self.idj(i), Self::sj(&v)]));
                             let l = self.idj(i);
                             self.env.insert(hkey2(&st["out"], &l)?, Obj::Sc(v));
                         }
-                        Ok(json!({"ok": true, "deltas": out}))
+                        ids.sort_by_key(|v| v.as_u64().unwrap_or(u64::MAX)); // by label: value order differs between id modes
+                        Ok(json!({"ok": true, "deltas": out, "delta_ids": ids, "delta_sum": Self::sj(&sum)}))
                     }
                     Err(e) => Ok(self.err_j(&e)),
                 }
@@ -463,6 +473,20 @@ impl<C: Suite> Interp<C> {
                         }
                     }};
                 }
+                // "parts": the object is taken apart with its accessors, every component goes through its own
+                // byte-level serialize/deserialize, and the object is rebuilt with its public constructor
+                if st.get("form").and_then(|x| x.as_str()) == Some("parts") {
+                    if let Some(r) = Self::reload_parts(&o) {
+                        let (res, n) = match r {
+                            Err(stage) => (json!({"ok": false, "stage": stage}), None),
+                            Ok(n) => (json!({"ok": true, "same": Self::obj_same(&o, &n)}), Some(n)),
+                        };
+                        if let Some(n) = n {
+                            self.put(h, n)?;
+                        }
+                        return Ok(res);
+                    }
+                }
                 let (res, n) = match o {
                     Obj::Ss(x) => rt!(x, SecretShare<C>, Obj::Ss),
                     Obj::Kp(x) => rt!(x, KeyPackage<C>, Obj::Kp),
@@ -527,6 +551,91 @@ impl<C: Suite> Interp<C> {
             }
             _ => se(format!("unknown op {op}")),
         }
+    }
+}
+
+impl<C: Suite> Interp<C> {
+    fn obj_same(a: &Obj<C>, b: &Obj<C>) -> bool {
+        match (a, b) {
+            (Obj::Ss(x), Obj::Ss(y)) => x == y,
+            (Obj::Kp(x), Obj::Kp(y)) => x == y,
+            (Obj::Pkp(x), Obj::Pkp(y)) => x == y,
+            (Obj::Non(x), Obj::Non(y)) => x == y,
+            (Obj::Comm(x), Obj::Comm(y)) => x == y,
+            (Obj::Pkg(x), Obj::Pkg(y)) => x == y,
+            (Obj::R1p(x), Obj::R1p(y)) => x == y,
+            (Obj::R2p(x), Obj::R2p(y)) => x == y,
+            _ => false,
+        }
+    }
+
+    /// None: this kind of object has no component-level route (the caller falls back to the whole-object one).
+    fn reload_parts(o: &Obj<C>) -> Option<Result<Obj<C>, &'static str>> {
+        use frost_core::keys::{VerifyingShare};
+        use frost_core::round1::{Nonce, NonceCommitment};
+        use frost_core::VerifyingKey;
+        fn id_rt<C: Suite>(i: &Identifier<C>) -> Result<Identifier<C>, &'static str> {
+            Identifier::<C>::deserialize(&i.serialize()).map_err(|_| "de:identifier")
+        }
+        fn share_rt<C: Suite>(x: &SigningShare<C>) -> Result<SigningShare<C>, &'static str> {
+            SigningShare::<C>::deserialize(&x.serialize()).map_err(|_| "de:signing_share")
+        }
+        fn vs_rt<C: Suite>(x: &VerifyingShare<C>) -> Result<VerifyingShare<C>, &'static str> {
+            VerifyingShare::<C>::deserialize(&x.serialize().map_err(|_| "ser")?).map_err(|_| "de:verifying_share")
+        }
+        fn vk_rt<C: Suite>(x: &VerifyingKey<C>) -> Result<VerifyingKey<C>, &'static str> {
+            VerifyingKey::<C>::deserialize(&x.serialize().map_err(|_| "ser")?).map_err(|_| "de:verifying_key")
+        }
+        fn nc_rt<C: Suite>(x: &NonceCommitment<C>) -> Result<NonceCommitment<C>, &'static str> {
+            NonceCommitment::<C>::deserialize(&x.serialize().map_err(|_| "ser")?).map_err(|_| "de:nonce_commitment")
+        }
+        fn comm_rt<C: Suite>(x: &SigningCommitments<C>) -> Result<SigningCommitments<C>, &'static str> {
+            Ok(SigningCommitments::new(nc_rt(x.hiding())?, nc_rt(x.binding())?))
+        }
+        fn vss_rt<C: Suite>(x: &VerifiableSecretSharingCommitment<C>) -> Result<VerifiableSecretSharingCommitment<C>, &'static str> {
+            let parts = x.serialize().map_err(|_| "ser")?;
+            VerifiableSecretSharingCommitment::<C>::deserialize(parts).map_err(|_| "de:commitment")
+        }
+        Some(match o {
+            Obj::Non(x) => (|| {
+                let h = Nonce::<C>::deserialize(&x.hiding().serialize()).map_err(|_| "de:nonce")?;
+                let b = Nonce::<C>::deserialize(&x.binding().serialize()).map_err(|_| "de:nonce")?;
+                Ok(Obj::Non(SigningNonces::from_nonces(h, b)))
+            })(),
+            Obj::Comm(x) => comm_rt(x).map(Obj::Comm),
+            Obj::Kp(x) => (|| {
+                Ok(Obj::Kp(KeyPackage::new(
+                    id_rt(x.identifier())?,
+                    share_rt(x.signing_share())?,
+                    vs_rt(x.verifying_share())?,
+                    vk_rt(x.verifying_key())?,
+                    *x.min_signers(),
+                )))
+            })(),
+            Obj::Pkp(x) => (|| {
+                let mut m = BTreeMap::new();
+                for (i, v) in x.verifying_shares() {
+                    m.insert(id_rt(i)?, vs_rt(v)?);
+                }
+                Ok(Obj::Pkp(PublicKeyPackage::new(m, vk_rt(x.verifying_key())?, x.min_signers())))
+            })(),
+            Obj::Ss(x) => (|| {
+                Ok(Obj::Ss(SecretShare::new(id_rt(x.identifier())?, share_rt(x.signing_share())?, vss_rt(x.commitment())?)))
+            })(),
+            Obj::Pkg(x) => (|| {
+                let mut m = BTreeMap::new();
+                for (i, c) in x.signing_commitments() {
+                    m.insert(id_rt(i)?, comm_rt(c)?);
+                }
+                Ok(Obj::Pkg(SigningPackage::new(m, x.message())))
+            })(),
+            Obj::R1p(x) => (|| {
+                let pok = Signature::<C>::deserialize(&x.proof_of_knowledge().serialize().map_err(|_| "ser")?).map_err(|_| "de:proof")?;
+                Ok(Obj::R1p(dkg::round1::Package::new(vss_rt(x.commitment())?, pok)))
+            })(),
+            Obj::R2p(x) => share_rt(x.signing_share()).map(|s| Obj::R2p(dkg::round2::Package::new(s))),
+            _ => return None,
+        })
     }
 }
 
